@@ -1,4 +1,4 @@
 From FV Require Import Common.ExtractTypes Locks.GuardModel.
 From Coq Require Extraction.
 From Coq Require Import ExtrOcamlBasic.
-Extraction "../build/extract/guard_model.ml" types_witness empty_store step exec live_ids sget offered offers.
+Extraction "../build/extract/guard_model.ml" types_witness empty_store step exec live_ids sget offered offers helper_op.
